@@ -35,6 +35,8 @@ def isWord (c : Char) : Bool :=
 def isSpace (c : Char) : Bool :=
   c == ' ' || (decide (9 ≤ c.toNat) && decide (c.toNat ≤ 13)) || (decide (28 ≤ c.toNat) && decide (c.toNat ≤ 31))
 
+def printable (c : Char) : Bool := decide (0x20 ≤ c.toNat) && decide (c.toNat ≤ 0x7e)
+
 def digitChar (n : Nat) : Char := Char.ofNat (48 + n % 10)
 def hexChar (n : Nat) : Char := if n % 16 < 10 then Char.ofNat (48 + n % 16) else Char.ofNat (87 + n % 16)
 
@@ -291,30 +293,44 @@ inductive PErr
   | outOfModel      -- literal syntax the model does not cover (octal / \a \b \f \v escapes, raw control or non-ASCII characters)
 deriving Repr, DecidableEq
 
-/-- body of a bytes literal `b'<body>'` (the body is what stands between the quotes), for the escapes `bytes.__repr__`
-produces plus `\"`; unknown escapes and raw control / non-ASCII characters are out of the model -/
-def litEval : Text → Except PErr (List Byte)
-  | [] => .ok []
-  | c :: s =>
-    if c == bsl then
-      match s with
-      | [] => .error .syntaxError                      -- the backslash would escape the closing quote
-      | e :: s' =>
-        if e == bsl || e == sq || e == dq then (litEval s').map (UInt8.ofNat e.toNat :: ·)
-        else if e == 't' then (litEval s').map (0x09 :: ·)
-        else if e == 'n' then (litEval s').map (0x0a :: ·)
-        else if e == 'r' then (litEval s').map (0x0d :: ·)
-        else if e == 'x' then
-          match s' with
-          | h :: l :: s'' =>
-            match hexVal h, hexVal l with
-            | some a, some b => (litEval s'').map (UInt8.ofNat (a * 16 + b) :: ·)
-            | _, _ => .error .syntaxError
-          | _ => .error .syntaxError
-        else .error .outOfModel
+/-- lexer state inside a bytes literal -/
+inductive LitMode
+  | plain
+  | esc                 -- after a backslash
+  | hex1                -- after `\x`
+  | hex2 (hi : Nat)     -- after `\x` and one hex digit
+
+/-- body of a bytes literal `b'<body>'` (the body is what stands between the quotes), one character at a time, for the
+escapes `bytes.__repr__` produces plus `\"`; other escapes (octal, \a \b \f \v, unknown) and raw control / non-ASCII
+characters are out of the model.  A body ending inside an escape is a SyntaxError (the backslash would escape the closing
+quote / truncated `\x`). -/
+def litRun : LitMode → Text → Except PErr (List Byte)
+  | .plain, [] => .ok []
+  | .esc, [] => .error .syntaxError
+  | .hex1, [] => .error .syntaxError
+  | .hex2 _, [] => .error .syntaxError
+  | .plain, c :: s =>
+    if c == bsl then litRun .esc s
     else if c == sq then .error .syntaxError           -- would close the literal early
-    else if decide (0x20 ≤ c.toNat) && decide (c.toNat ≤ 0x7e) then (litEval s).map (UInt8.ofNat c.toNat :: ·)
+    else if printable c then (litRun .plain s).map (UInt8.ofNat c.toNat :: ·)
     else .error .outOfModel
+  | .esc, e :: s =>
+    if e == bsl || e == sq || e == dq then (litRun .plain s).map (UInt8.ofNat e.toNat :: ·)
+    else if e == 't' then (litRun .plain s).map (0x09 :: ·)
+    else if e == 'n' then (litRun .plain s).map (0x0a :: ·)
+    else if e == 'r' then (litRun .plain s).map (0x0d :: ·)
+    else if e == 'x' then litRun .hex1 s
+    else .error .outOfModel
+  | .hex1, h :: s =>
+    match hexVal h with
+    | some a => litRun (.hex2 a) s
+    | none => .error .syntaxError
+  | .hex2 a, l :: s =>
+    match hexVal l with
+    | some d => (litRun .plain s).map (UInt8.ofNat (a * 16 + d) :: ·)
+    | none => .error .syntaxError
+
+def litEval (t : Text) : Except PErr (List Byte) := litRun .plain t
 
 /-! ## the STATV decoder (`GeckoStatusBlockProtocolHandler.handle`) and `_re_data_segment` -/
 
@@ -430,25 +446,29 @@ structure FileSt where
 def connInit : Snap := { name := some t!"Connection found" }
 
 /-- one iteration of the `for line in f` loop -/
-def fileStep (st : FileSt) (line : Text) : Except PErr FileSt := do
-  let snap := if hasSub t!"Snapshot" line then some ({} : Snap) else st.snap
-  let (done, snap) ← match snap with
+def fileStep (st : FileSt) (line : Text) : Except PErr FileSt :=
+  let snap0 := if hasSub t!"Snapshot" line then some ({} : Snap) else st.snap
+  let r1 : Except PErr (List Snap × Option Snap) :=
+    match snap0 with
     | some s =>
       if hasSub t!"INFO" line then
         match parseLine s line with
-        | .ok s' => pure (st.done, some s')
-        | .error e => throw e
-      else pure (st.done ++ [s], none)
-    | none => pure (st.done, none)
-  let conn := if hasSub t!"Starting spa connection handshake..." line then some connInit else st.conn
-  match conn with
-  | some c =>
-    match parseLine c line with
-    | .error e => throw e
-    | .ok c' =>
-      if hasSub t!"Spa is connected" line then pure { done := done ++ [c'], snap := snap, conn := none }
-      else pure { done := done, snap := snap, conn := some c' }
-  | none => pure { done := done, snap := snap, conn := none }
+        | .ok s' => .ok (st.done, some s')
+        | .error e => .error e
+      else .ok (st.done ++ [s], none)
+    | none => .ok (st.done, none)
+  match r1 with
+  | .error e => .error e
+  | .ok (done, snap) =>
+    let conn := if hasSub t!"Starting spa connection handshake..." line then some connInit else st.conn
+    match conn with
+    | some c =>
+      match parseLine c line with
+      | .error e => .error e
+      | .ok c' =>
+        if hasSub t!"Spa is connected" line then .ok { done := done ++ [c'], snap := snap, conn := none }
+        else .ok { done := done, snap := snap, conn := some c' }
+    | none => .ok { done := done, snap := snap, conn := none }
 
 def fileLoop : FileSt → List Text → Except PErr FileSt
   | st, [] => .ok st
@@ -512,6 +532,19 @@ def logLine (stamp msg : Text) : Text := stamp ++ (shellTag ++ (msg ++ ['\n']))
 def writeSnapshot (stamps : List Text) (name : Text) (h : Header) (bs : List Byte) : List Text :=
   let msgs := (t!"Snapshot (" ++ (name ++ [')'])) :: versionMessages h ++ [renderBlockL bs]
   List.zipWith logLine stamps msgs
+
+/-- the name line without time stamp and logger tag -/
+def nameTail (name : Text) : Text := t!"Snapshot (" ++ (name ++ [')', '\n'])
+
+/-- snapshot names for which the round trip is claimed: printable ASCII (the model's classes `\d \w \s .` are ASCII, and a
+line break inside the name would split the record); the block expression, if it fires on the name line, decodes without
+ValueError (exact: D14 is the complement); the traffic expression `(STATV.*)</DATAS>` does not fire (sufficient); the name
+does not contain the text that makes `parse_log_file` open a connection record. -/
+def SafeName (name : Text) : Prop :=
+  name.all printable = true ∧ dataLine (nameTail name) ≠ .raises ∧ searchRe reStatv (nameTail name) = none ∧
+  hasSub t!"Starting spa connection handshake..." (nameTail name) = false
+
+instance (name : Text) : Decidable (SafeName name) := by unfold SafeName; exact inferInstance
 
 def renderVersions (stamp : Text) (h : Header) : List Text := (versionMessages h).map (logLine stamp)
 
